@@ -48,7 +48,7 @@ class C03Stream(M.MatStream):
 
 
 def streams():
-    return [C03Stream(), M.CallsStream()]
+    return [C03Stream(), M.CallsStream(), M.GroupsStream()]
 
 META = {
     "technique": "Coq proof (invariant of the priority sweep by induction over the proposal list; bucket = live-set refinement by snoc-induction over histories; sort permutation-invariance) + T-tie translation of _bounds.py + differential correspondence of Matryoshka vs model evaluated in Coq",
